@@ -128,6 +128,10 @@ def a_configs(tier, seed):
         # ... and with initial points that are members of the list (fresh-process twins: always part of the children's set)
         out.append(dict(src="generic", max_states=1500 if tier == "quick" else 3500, always_child=True,
                         cfg=dict(kind=kind, seed=seed, R=3, W=2, T=6, F=1, mode="min", kw=dict(restrict=12, restrict_p2e=[5, 2]))))
+    # spaces made of quantized domains (the seeded generator has to reach the wrapped sampler)
+    for kind in ("fifo-random", "hb-stopping", "pbt"):
+        out.append(dict(src="generic", max_states=1200 if tier == "quick" else 3500,
+                        cfg=dict(kind=kind, seed=seed, R=3, W=2, T=5, F=0, mode="min", kw=dict(quant_space=True))))
     for kind in ["pbt", "dehb", "median", "rea", "fifo-random", "fifo-grid", "hb-rush-prom", "hb-cost", "fifo-bo"]:
         for W in (2, 3):
             if tier == "quick" and W == 3:
